@@ -37,14 +37,14 @@ fn run(args: vcore::Args) -> i32 {
             (sess::Model { prop: "C01", sessions: 2, writes: vec![sess::W::CreateNode, sess::W::SetProp, sess::W::InsertTriple], caps: vec![3, 3], writers: vec![0, 1], levels: vec![0], probes: all_probes.clone(), second_commit_first: true, endings: false }, 5),
         ],
         Tier::Thorough => vec![
-            (sess::Model { prop: "C01", sessions: 3, writes: sess::ALL_W.to_vec(), caps: vec![4, 3, 2], writers: vec![0, 1], levels: vec![0, 1], probes: all_probes.clone(), second_commit_first: false, endings: false }, 6),
-            (sess::Model { prop: "C01", sessions: 3, writes: sess::ALL_W.to_vec(), caps: vec![4, 3, 2], writers: vec![0, 1], levels: vec![0], probes: all_probes.clone(), second_commit_first: true, endings: false }, 6),
+            (sess::Model { prop: "C01", sessions: 2, writes: sess::ALL_W.to_vec(), caps: vec![4, 3], writers: vec![0], levels: vec![0, 1], probes: all_probes.clone(), second_commit_first: false, endings: false }, 6),
+            (sess::Model { prop: "C01", sessions: 3, writes: vec![sess::W::CreateNode, sess::W::SetProp, sess::W::DeleteNodeB, sess::W::CreateEdge, sess::W::AddLabel, sess::W::InsertTriple], caps: vec![3, 3, 2], writers: vec![0, 1], levels: vec![0], probes: all_probes.clone(), second_commit_first: true, endings: false }, 6),
         ],
     };
     for (m, depth) in configs {
         let before = (rep.states, rep.transitions);
         let t0 = rep.elapsed_s();
-        let st = vcore::seq_bfs(&m, depth, tier.pick(2_000_000, 1_500_000), &mut rep);
+        let st = vcore::seq_bfs(&m, depth, tier.pick(400_000, 150_000), &mut rep);
         layers.push(json!({"layer": "session", "config": m.config_json(), "depth_bound": depth, "depth_completed": st.depth_completed, "states": rep.states - before.0, "transitions": rep.transitions - before.1, "wall_s": rep.elapsed_s() - t0}));
         eprintln!("session layer: depth {depth}: {} states {} transitions ({:.1}s)", rep.states - before.0, rep.transitions - before.1, rep.elapsed_s() - t0);
     }
